@@ -55,6 +55,8 @@ try:
         old.setdefault('property', f['property'])
         old.setdefault('bin', f.get('bin', 'main'))
         old['opts'] = dict(stage.opts or {})
+        if '--exclude' in extra:
+            old['exclude'] = extra[extra.index('--exclude') + 1]
         json.dump(old, open(rp, 'w'), indent=1)
         print('REGENERATED', rp, found['sig'])
     else:
